@@ -359,7 +359,12 @@ Verdict modeB(Tape& t, Run& run) {
 		return run.fail(sigBase + ":permutation", detail("after set", "shape triangles changed"));
 	if (static_cast<int>(info2.size()) != numParts)
 		return run.fail(sigBase + ":info", detail("after set", "partition info count " + std::to_string(info2.size()) + ", expected " + std::to_string(numParts)));
-	nif.UpdateSkinPartitions(shape);
+	// callers either rebuild the partitions before saving or save the freshly assigned model as it is
+	const bool saveDirectly = (t.u8() % 3) == 1;
+	if (!saveDirectly)
+		nif.UpdateSkinPartitions(shape);
+	else
+		run.cls("B:saved-directly-after-SetShapePartitions");
 	if (distinct.size() >= 2)
 		run.nontriv(fnv1a(std::string(reinterpret_cast<const char*>(run.curTape), run.curTapeLen)));
 
@@ -367,7 +372,7 @@ Verdict modeB(Tape& t, Run& run) {
 	std::map<uint64_t, int> want;
 	for (uint32_t i = 0; i < T; i++)
 		want[triKey(tris[i])] = expect[i];
-	if (t.coin()) {
+	if (!saveDirectly && t.coin()) {
 		std::string cls;
 		std::vector<uint16_t> D = genDeletion(t, shape->GetNumVertices(), cls);
 		std::vector<int> remap(shape->GetNumVertices(), -1);
